@@ -1196,6 +1196,10 @@ func (r *Reader) start(offsetsByPartition map[topicPartition]int64) {
 	r.cancel() // always cancel the previous reader
 	r.cancel = cancel
 	r.version++
+	// The goroutines started below run after the mutex held by the caller is
+	// released; they must tag their messages with the version of this start,
+	// not with whatever a later SetOffset or rebalance has made of r.version.
+	version := r.version
 
 	r.join.Add(len(offsetsByPartition))
 	for key, offset := range offsetsByPartition {
@@ -1215,7 +1219,7 @@ func (r *Reader) start(offsetsByPartition map[topicPartition]int64) {
 				readBatchTimeout: r.config.ReadBatchTimeout,
 				backoffDelayMin:  r.config.ReadBackoffMin,
 				backoffDelayMax:  r.config.ReadBackoffMax,
-				version:          r.version,
+				version:          version,
 				msgs:             r.msgs,
 				stats:            r.stats,
 				isolationLevel:   r.config.IsolationLevel,
